@@ -129,7 +129,9 @@ class Divider(FormulaStep):
         """
         val2 = eval_stack.pop()
         val1 = eval_stack.pop()
-        res = val1 / val2
+        # A division by zero has no defined result, just like any other operation on
+        # missing values.
+        res = val1 / val2 if val2 != 0.0 else math.nan
         eval_stack.append(res)
 
 
@@ -152,7 +154,8 @@ class Maximizer(FormulaStep):
         """
         val2 = eval_stack.pop()
         val1 = eval_stack.pop()
-        res = max(val1, val2)
+        # `max()` doesn't propagate NaNs consistently, it depends on the argument order.
+        res = math.nan if math.isnan(val1) or math.isnan(val2) else max(val1, val2)
         eval_stack.append(res)
 
 
@@ -175,7 +178,8 @@ class Minimizer(FormulaStep):
         """
         val2 = eval_stack.pop()
         val1 = eval_stack.pop()
-        res = min(val1, val2)
+        # `min()` doesn't propagate NaNs consistently, it depends on the argument order.
+        res = math.nan if math.isnan(val1) or math.isnan(val2) else min(val1, val2)
         eval_stack.append(res)
 
 
